@@ -157,7 +157,26 @@ fn eval_g(g: &G, row: &[Option<bool>; 4]) -> V3 {
 /// before or after the members are added; members go in through `add` or `add_option(Some(..))`.
 fn build_g(g: &G) -> Condition {
     use crate::apply::route;
-    let mut c = if g.any { Condition::any() } else { Condition::all() };
+    // groups of up to three leaves: also through the `any!` / `all!` macros
+    if !g.negate && g.members.len() <= 3 && g.members.iter().all(|m| matches!(m, M::Leaf { .. })) && route(5) == 0 {
+        let l: Vec<SimpleExpr> = g.members.iter().map(|m| if let M::Leaf { atom, form } = m { leaf_expr(*atom, *form) } else { unreachable!() }).collect();
+        return match (g.any, l.len()) {
+            (true, 0) => sea_query::any![],
+            (true, 1) => sea_query::any![l[0].clone()],
+            (true, 2) => sea_query::any![l[0].clone(), l[1].clone()],
+            (true, _) => sea_query::any![l[0].clone(), l[1].clone(), l[2].clone()],
+            (false, 0) => sea_query::all![],
+            (false, 1) => sea_query::all![l[0].clone()],
+            (false, 2) => sea_query::all![l[0].clone(), l[1].clone()],
+            (false, _) => sea_query::all![l[0].clone(), l[1].clone(), l[2].clone()],
+        };
+    }
+    let mut c = match (g.any, route(2)) {
+        (true, 0) => Cond::any(),
+        (true, _) => Condition::any(),
+        (false, 0) => Cond::all(),
+        (false, _) => Condition::all(),
+    };
     let flips = (if g.negate { 1 } else { 0 }) + if route(4) == 0 { 2 } else { 0 };
     let early = if route(3) == 0 { route(flips + 1) } else { 0 };
     for _ in 0..early {
